@@ -77,3 +77,30 @@ Qed.
 (* the only member the standard leaves to the implementation is `traps` *)
 Lemma limits_spec_defined : forall a m, m <> Ltraps -> limits_spec a m <> None.
 Proof. intros a m Hm; destruct a, m; try contradiction; discriminate. Qed.
+
+(** * the header's decimal-digit formulas, beyond the types of this platform *)
+(* `digits10 = digits * 3 / 10` is floor(digits * log10 2) for every width up to 102 bits (so also for
+   a 128-bit integer type), and wrong at 103; `max_digits10 = 2 + MANT_DIG * 301 / 1000` is
+   ceil(1 + p * log10 2) for every precision up to 195 bits (binary128 has 113) *)
+Definition digits10_formula_ok (d : Z) : bool := Z.quot (d * 3) 10 =? flog10 (2 ^ d).
+Definition max_digits10_formula_ok (p : Z) : bool := 2 + Z.quot (p * 301) 1000 =? flog10 (2 ^ p) + 2.
+
+Lemma digits10_formula_sweep : forallb digits10_formula_ok (zrange_from 1 102) = true.
+Proof. vm_cast_no_check (eq_refl true). Qed.
+Lemma max_digits10_formula_sweep : forallb max_digits10_formula_ok (zrange_from 1 195) = true.
+Proof. vm_cast_no_check (eq_refl true). Qed.
+
+Theorem decimal_formulas :
+  (forall d, 1 <= d <= 102 -> Z.quot (d * 3) 10 = flog10 (2 ^ d))
+  /\ Z.quot (103 * 3) 10 <> flog10 (2 ^ 103)
+  /\ (forall p, 1 <= p <= 195 -> 2 + Z.quot (p * 301) 1000 = flog10 (2 ^ p) + 2)
+  /\ 2 + Z.quot (196 * 301) 1000 <> flog10 (2 ^ 196) + 2.
+Proof.
+  repeat split.
+  - intros d Hd. pose proof digits10_formula_sweep as S. rewrite forallb_forall in S.
+    specialize (S d). apply Z.eqb_eq. apply S. apply zrange_from_In. lia.
+  - vm_compute. discriminate.
+  - intros p Hp. pose proof max_digits10_formula_sweep as S. rewrite forallb_forall in S.
+    specialize (S p). apply Z.eqb_eq. apply S. apply zrange_from_In. lia.
+  - vm_compute. discriminate.
+Qed.
